@@ -186,6 +186,13 @@ def main():
 
     keys.ed25519()
     keys.ecdsa()
+    # paramiko formats a traceback (util.tb_strings) before shutting a transport down after a protocol
+    # error: have the sources in linecache so that this costs milliseconds, not file reads on a loaded box
+    import glob
+    import linecache
+
+    for f in glob.glob(os.path.join(os.path.dirname(paramiko.__file__), "*.py")) + [c13_case.__file__]:
+        linecache.getlines(f)
     rd = sys.stdin.buffer
     wr = sys.stdout.buffer
     wr.write(b'{"ready": true}\n')
